@@ -239,7 +239,7 @@ Definition median_score (sc : list (peer * Z)) (g : list peer) : Z :=
 Definition cut_ok (P : params) (sc : list (peer * Z)) (s : rstate) (M K : list peer) : bool :=
   nodup_b K && subset K M && Nat.eqb (length K) (pD P)
   && Nat.leb (Nat.min (pDout P) (count_out s M)) (count_out s K)
-  && match kth_largest (pDscore P) (map (score_of sc) M) with
+  && match kth_largest (Nat.min (pDscore P) (pD P)) (map (score_of sc) M) with   (* with Dscore above D the D best are kept *)
      | None => true
      | Some sstar =>
          (* a peer strictly better than the Dscore-th score is dropped only to make room for the outbound quota *)
